@@ -7,6 +7,7 @@ import Req.Client.DigestAuth
 import Req.Client.Rfc7616
 import Req.Client.DigestResend
 import Req.Client.AuthSet
+import Req.Client.AuthHeap
 /-! Driver lanes of C20. -/
 namespace Req.Driver.L.C20
 open Req.Proto Req.Digest
@@ -347,6 +348,47 @@ def laneSet : List String → String
     | _, _, _ => "bad-op"
   | _ => "bad-op"
 
+/-- events of lane `life`: groups of four byte strings `kind idx a b`; kinds `cb ct` (client-level
+setter), `nr` (`Client.R()`), `rb rt` (setter of request `idx`), `sd` (attempt of request `idx`, no
+user information in the URL), `su` (attempt, URL user information `a:b`); `idx` in ASCII decimal -/
+def lifeEvsOf : List Bytes → Option (List Req.Auth.Ev)
+  | [] => some []
+  | kind :: idx :: a :: b :: r =>
+    let i := (String.ofList (idx.map fun c => Char.ofNat c.toNat)).toNat?
+    let ev : Option Req.Auth.Ev :=
+      if kind == [99, 98] then some (.client (Req.Auth.basic a b))             -- "cb"
+      else if kind == [99, 116] then some (.client (Req.Auth.bearer a))        -- "ct"
+      else if kind == [110, 114] then some .newReq                             -- "nr"
+      else if kind == [114, 98] then i.map (.request · (Req.Auth.basic a b))   -- "rb"
+      else if kind == [114, 116] then i.map (.request · (Req.Auth.bearer a))   -- "rt"
+      else if kind == [115, 100] then i.map (.send · none)                     -- "sd"
+      else if kind == [115, 117] then i.map (.send · (some (a, b)))            -- "su"
+      else none
+    match ev, lifeEvsOf r with
+    | some ev, some evs => some (ev :: evs)
+    | _, _ => none
+  | _ => none
+
+/-- what the origin recovers from one attempt -/
+def lifeAttempt (h2 : Bool) : Option Bytes → String
+  | none => "basic=none bearer=none"
+  | some v =>
+    match Req.Auth.transport h2 v with
+    | none => "refused"
+    | some w => "basic=" ++ pairHex (Req.Auth.serverBasic w) ++ " bearer=" ++ optHex (Req.Auth.serverBearer w)
+
+/-- `c20life h1|h2 events` → the attempts, `;`-joined (`-` = none): `refused` | `basic=… bearer=…` each.
+Model: `Req.Auth.life .fresh` (the heap with shared slices; `sharing_unobservable` makes it the
+value-only description). -/
+def laneLife : List String → String
+  | [proto, evs] =>
+    match (decodeList evs).bind lifeEvsOf with
+    | some evs =>
+      let outs := (Req.Auth.life .fresh evs).map (lifeAttempt (proto == "h2"))
+      if outs.isEmpty then "-" else ";".intercalate outs
+    | none => "bad-op"
+  | _ => "bad-op"
+
 def lanes : List (String × (List String → String)) := [
   ("c20b64", laneB64),
   ("c20b64dec", laneB64Dec),
@@ -369,7 +411,8 @@ def lanes : List (String × (List String → String)) := [
   ("c20effective", laneEffective),
   ("c20upload2", laneUploadWith .repaired),
   ("c20upload", laneUploadWith .asFound),
-  ("c20set", laneSet)
+  ("c20set", laneSet),
+  ("c20life", laneLife)
 ]
 
 end Req.Driver.L.C20
